@@ -92,6 +92,7 @@ func main() {
 	tmp := fs.String("tmp", "", "private scratch directory")
 	record := fs.Bool("trace", false, "record a readable trace")
 	maxc := fs.Int("max-candidates", 300, "shrink budget")
+	coldFlag := fs.Bool("cold", false, "cold-start lane: mark every case cold (the concurrent phase is the first library use of this process)")
 	fs.Parse(os.Args[2:])
 
 	if *tmp == "" {
@@ -124,6 +125,9 @@ func main() {
 			}
 			i := *from + k**step
 			c := props.NewCase(p, *seed, i, *tier)
+			if *coldFlag {
+				c.Cfg["cold"] = 1
+			}
 			emit(line{T: "begin", Run: i})
 			testHang(i)
 			res, infra := props.Execute(p, c, env)
